@@ -174,6 +174,7 @@ struct Cfg {
     hang_ms: u64,
     count_keys: Vec<String>, // keys whose distinct (key, value) leaves are counted (reporting only; empty: all)
     ctx: bool,          // context-independence: pairs, re-decoding of a sample in other orders
+    pairs: bool,        // context pairs alone (C07: a record's hex is decoded again elsewhere)
     ctx_every: u64,
     emit01: bool,
     emit07: bool,
@@ -201,6 +202,7 @@ fn load_cfg(path: &str) -> Cfg {
         hang_ms: g("hang_ms", 10000),
         count_keys: v.get("count_keys").and_then(|x| x.as_array()).map(|a| a.iter().filter_map(|k| k.as_str()).map(|k| k.to_string()).collect()).unwrap_or_default(),
         ctx: v.get("ctx").and_then(|x| x.as_bool()).unwrap_or(false),
+        pairs: v.get("pairs").and_then(|x| x.as_bool()).unwrap_or(false),
         ctx_every: g("ctx_every", 16).max(1),
         emit01: v.get("emit01").and_then(|x| x.as_bool()).unwrap_or(true),
         emit07: v.get("emit07").and_then(|x| x.as_bool()).unwrap_or(true),
@@ -267,7 +269,7 @@ fn enumerate(cfg: &Cfg, shapes: &[Shape], f: &mut dyn FnMut(u64, &str, &str, &[u
         // context pairs (shapes with ctx fields, i.e. Comm-B replies): frame A was just emitted;
         // B has the same message field and another header field; then A again, so that both
         // (A, B) and (B, A) are decoded consecutively
-        let ctx_fields = if cfg.ctx { s.ctx.clone() } else { vec![] };
+        let ctx_fields = if cfg.ctx || cfg.pairs { s.ctx.clone() } else { vec![] };
         let ctx_pair = |a: &[u8], fill: &str, out: &mut dyn FnMut(&[u8], &str, &mut u64), idx: &mut u64| {
             for &(off, w) in &ctx_fields {
                 let mut v: u64 = 0;
@@ -1476,7 +1478,7 @@ fn main() {
             std::fs::create_dir_all(&dir).unwrap();
             let out = dir.to_str().unwrap().to_string();
             let cfg = Cfg { shapes: String::new(), out: out.clone(), seed: 0, k_random: 0, field_rand: 0, windows: false, field_lite: false, win_df: vec![], wl_every: 0,
-                            from: 0, to: 0, hang_ms: 0, count_keys: vec![], ctx: false, ctx_every: 16, emit01: true, emit07: true, emit08: true, sample_every: 1 };
+                            from: 0, to: 0, hang_ms: 0, count_keys: vec![], ctx: false, pairs: false, ctx_every: 16, emit01: true, emit07: true, emit08: true, sample_every: 1 };
             let mut sk = new_sinks(&out);
             for (i, h) in args[1..].iter().enumerate() {
                 let b = hex::decode(h).expect("hex");
@@ -1553,7 +1555,7 @@ fn main() {
             let mut w = open(args[2].clone());
             let mut n: u64 = 0;
             let lite = cfg.field_lite;
-            let c2 = Cfg { from: 0, to: u64::MAX, ctx: false, windows: false, wl_every: 0, ..cfg };
+            let c2 = Cfg { from: 0, to: u64::MAX, ctx: false, pairs: false, windows: false, wl_every: 0, ..cfg };
             enumerate(&c2, &shapes, &mut |_, cls, fill, b| {
                 let basic = cls.starts_with("len.df")
                     || matches!(fill.trim_end_matches(".sealed"), "zeros" | "ones" | "rand0")
